@@ -280,7 +280,10 @@ func (idx *MemoryIndex) genOffsetHash() error {
 	for firstLevel, fanoutValue := range idx.Fanout {
 		mappedFirstLevel := idx.FanoutMapping[firstLevel]
 		for secondLevel := uint32(0); i < fanoutValue; i++ {
-			_, err = hash.Write(idx.Names[mappedFirstLevel][secondLevel*uint32(idx.idSize()):])
+			// One name, not the rest of the bucket: bytes copied behind the
+			// id's own size would make it a different value and map key.
+			start := int(secondLevel) * idx.idSize()
+			_, err = hash.Write(idx.Names[mappedFirstLevel][start : start+idx.idSize()])
 			if err != nil {
 				return fmt.Errorf("cannot write name to hash: %w", err)
 			}
@@ -428,7 +431,8 @@ func (i *idxfileEntryIter) Next() (*Entry, error) {
 		mappedFirstLevel := i.idx.FanoutMapping[i.firstLevel]
 		entry := new(Entry)
 		entry.Hash.ResetBySize(i.idx.idSize())
-		_, err := entry.Hash.Write(i.idx.Names[mappedFirstLevel][i.secondLevel*i.idx.idSize():])
+		start := i.secondLevel * i.idx.idSize()
+		_, err := entry.Hash.Write(i.idx.Names[mappedFirstLevel][start : start+i.idx.idSize()])
 		if err != nil {
 			return nil, fmt.Errorf("cannot write entry hash: %w", err)
 		}
